@@ -932,7 +932,7 @@ fn main() {
                 match found {
                     Some((row, mask, info)) => {
                         role_override = Some(if row == 0 && mask == 0xff00 { "first-row-capacity-unconstrained:compact-d1".to_string() } else if mask & 0xff00 != 0 { format!("chained-capacity-unconstrained:compact-d1:row{row}:limbs{mask:#x}") } else { format!("rate-input-unconstrained:compact-d1:row{row}:limbs{mask:#x}") });
-                        (true, format!("KoalaBear quintic circuit, capacity inputs (mask {mask:#x}) of permutation row {row} set to 7: honest control proof verified, forged proof verified, challenge differs from native ({info})"))
+                        (true, format!("KoalaBear quintic circuit, permutation input limbs (mask {mask:#x}; bits 8-15 = capacity) of row {row} set to 7: honest control proof verified, forged proof verified, challenge differs from native ({info})"))
                     }
                     None => (false, format!("KoalaBear quintic circuit: control {:?}; none of {tried} capacity deviations produced a verifying proof", control.map(|c| c.0))),
                 }
